@@ -2,7 +2,7 @@ from abc import ABC, abstractmethod
 from collections.abc import Sequence
 from inspect import isclass
 from itertools import chain
-from numpy import abs, diag, exp, eye, log, zeros, ndarray, ptp, ndim
+from numpy import abs, diag, exp, eye, log, zeros, ndarray, ptp, ndim, asarray
 
 
 class CovarianceFunction(ABC):
@@ -218,6 +218,9 @@ class SquaredExponential(CovarianceFunction):
         Pre-calculates hyperparameter-independent part of the data covariance
         matrix as an optimisation.
         """
+        # (floating-point coordinates: differences of unsigned integers wrap around and
+        # squares of narrow integers overflow)
+        x = asarray(x, dtype=float)
         # distributed outer subtraction using broadcasting
         self.dx = x[:, None, :] - x[None, :, :]
         self.distances = -0.5 * self.dx**2
@@ -244,6 +247,7 @@ class SquaredExponential(CovarianceFunction):
     def __call__(self, u: ndarray, v: ndarray, theta: ndarray) -> ndarray:
         a = exp(theta[0])
         L = exp(theta[1:])
+        u, v = asarray(u, dtype=float), asarray(v, dtype=float)
         D = -0.5 * (u[:, None, :] - v[None, :, :]) ** 2
         C = exp((D / L[None, None, :] ** 2).sum(axis=2))
         return (a**2) * C
@@ -266,7 +270,7 @@ class SquaredExponential(CovarianceFunction):
         """
         a = exp(theta[0])
         L = exp(theta[1:])
-        A = (x - v[None, :]) / L[None, :] ** 2
+        A = (asarray(x, dtype=float) - asarray(v, dtype=float)[None, :]) / L[None, :] ** 2
         return A.T, diag((a / L) ** 2)
 
     def covariance_and_gradients(self, theta: ndarray):
@@ -315,6 +319,9 @@ class RationalQuadratic(CovarianceFunction):
         Pre-calculates hyperparameter-independent part of the data covariance
         matrix as an optimisation.
         """
+        # (floating-point coordinates: differences of unsigned integers wrap around and
+        # squares of narrow integers overflow)
+        x = asarray(x, dtype=float)
         # distributed outer subtraction using broadcasting
         self.dx = x[:, None, :] - x[None, :, :]
         self.distances = 0.5 * self.dx**2
@@ -340,6 +347,7 @@ class RationalQuadratic(CovarianceFunction):
         a = exp(theta[0])
         k = exp(theta[1])
         L = exp(theta[2:])
+        u, v = asarray(u, dtype=float), asarray(v, dtype=float)
         D = 0.5 * (u[:, None, :] - v[None, :, :]) ** 2
         Z = (D / L[None, None, :] ** 2).sum(axis=2)
         return (a**2) * (1 + Z / k) ** (-k)
@@ -505,7 +513,7 @@ class ChangePoint(CovarianceFunction):
         [self.hyperpar_labels.extend(L) for L in label_groups]
 
         # store x-data from the dimension of the change-point
-        self.x_cp = x[:, self.axis]
+        self.x_cp = asarray(x, dtype=float)[:, self.axis]
         assert self.n_params == len(self.hyperpar_labels)
 
     def estimate_hyperpar_bounds(self, y: ndarray):
@@ -533,8 +541,8 @@ class ChangePoint(CovarianceFunction):
     def __call__(self, u: ndarray, v: ndarray, theta: ndarray) -> ndarray:
         kernel_coeffs = [1.0]
         for slc in self.cp_slc:
-            w_u = self.logistic(u[:, self.axis], theta[slc])
-            w_v = self.logistic(v[:, self.axis], theta[slc])
+            w_u = self.logistic(asarray(u[:, self.axis], dtype=float), theta[slc])
+            w_v = self.logistic(asarray(v[:, self.axis], dtype=float), theta[slc])
 
             w1 = (1 - w_u)[:, None] * (1 - w_v)[None, :]
             w2 = w_u[:, None] * w_v[None, :]
@@ -690,11 +698,11 @@ class HeteroscedasticNoise(CovarianceFunction):
         Optimized version of self.matrix() specifically for the data
         covariance matrix where the vectors v1 & v2 are both self.x.
         """
-        sigma_sq = exp(2 * theta)
+        sigma_sq = exp(2 * asarray(theta, dtype=float))
         return diag(sigma_sq)
 
     def covariance_and_gradients(self, theta: ndarray):
-        sigma_sq = exp(2 * theta)
+        sigma_sq = exp(2 * asarray(theta, dtype=float))
         K = diag(sigma_sq)
         grads = [s * dk for s, dk in zip(sigma_sq, self.dK)]
         return K, grads
